@@ -807,7 +807,13 @@ func (x *c01Ctx) counterG(pp *cgPipe, owner string, opNode *cgNode, driver *cgLo
 					sameVar = g.objKey(l.Base) == g.objKey(numV)
 				}
 			}
-			if !isLoad || lv.Op != token.MUL || l.K != 1 || !sameVar {
+			if isLoad && lv.Op == token.MUL && sameVar && l.K != 1 {
+				if l.K != 0 {
+					bad = "the segment counter is not advanced by exactly 1 per processed segment (got " + fmt.Sprintf("counter%+d", l.K) + ")"
+				}
+				continue
+			}
+			if !isLoad || lv.Op != token.MUL || !sameVar {
 				undec = true
 				continue
 			}
